@@ -29,10 +29,15 @@ META = {
     "the tolerance (exact characterisation for every query incl. degenerate ones, and a proved counterexample "
     "showing that thin queries are widened by up to 1e-8); polygon query = bbox tiles filtered by disjointness, "
     "sound and complete under the contract of `disjoint`; a grid rebuilt from any tile has identical footprints "
-    "and lookups; web_tiles has the slippy-map extents with exactly 2^z tiles per side.  The model is tied to "
+    "and lookups; web_tiles has the slippy-map extents with exactly 2^z tiles per side; a caller-supplied geobox_cache "
+    "that was filled by any earlier history of queries never changes a bbox/polygon query result and stays coherent "
+    "(proved for every rounding function).  The model is tied to "
     "/repo on every run by (E) an exact-arithmetic correspondence, exhaustive on a small lattice of signs, flips, "
     "edge/half-way points and tolerance edges, and (F) a bit-exact binary64 correspondence on arbitrary "
-    "realistic doubles (Albers/UTM/degree grids, zoom 0..30), plus Fraction/shapely property oracles.",
+    "realistic doubles (Albers/UTM/degree grids, sizes at k±δ and 1/(k±δ) around the library's snapping windows with "
+    "indices up to 1e4 from the sample, zoom 0..30), multi-step histories sharing one geobox_cache (each step compared "
+    "with the stateless query, the shapely reference and the expected cache contents), plus Fraction/shapely oracles "
+    "(two-sided, ulp-derived bounds on rebuilt sizes/origins).",
     "note": "Trusted: Lean kernel + {propext, Classical.choice, Quot.sound}; shapely `disjoint` enters the "
     "polygon theorems as a parameter with its contract as hypothesis (driver instance: separating-axis test for "
     "convex polygons, validated against shapely each run); theorems are over exact rationals — IEEE rounding is "
@@ -261,7 +266,7 @@ def oracle_query(C, gs, sp: Spec, q: Tuple[float, float, float, float], exact: b
     C.oracle(True, "bbox-query", case, "", sig="query|" + ("thin" if thin else "box") + "|" + sp.sig())
 
 
-def oracle_polygon(C, gs, sp: Spec, pts: List[Tuple[float, float]], exact: bool, O, got=None, history=None):
+def oracle_polygon(C, gs, sp: Spec, pts: List[Tuple[float, float]], exact: bool, O, got=None, history=None, holes=None):
     """polygon query vs shapely as the reference; `got` = result of the query when it was made as a step of a
     history (shared geobox_cache), the reference never uses a cache"""
     import shapely
@@ -270,8 +275,10 @@ def oracle_polygon(C, gs, sp: Spec, pts: List[Tuple[float, float]], exact: bool,
     case = {"op": "poly", "grid": sp.tok(), "pts": [[fs(x), fs(y)] for x, y in pts]}
     if history is not None:
         case["history"] = history
+    if holes:
+        case["holes"] = [[[fs(x), fs(y)] for x, y in h] for h in holes]
     try:
-        poly = O.geom.polygon(list(pts) + [pts[0]], CRS)
+        poly = mk_poly(O, pts, holes)
         if got is None:
             got = [tuple(map(int, k)) for k, _ in gs.tiles_from_geopolygon(poly)]
         cand = [(tuple(map(int, k)), gb) for k, gb in gs.tiles(poly.boundingbox)]
@@ -315,9 +322,12 @@ def oracle_roundtrip(C, gs, sp: Spec, j: Tuple[int, int], ks: List[Tuple[int, in
         for k in ks:
             a, b = fbb(g2[k].boundingbox), fbb(gs[k].boundingbox)
             big = max(sp.scale(), *(abs(v) for v in a + b))
-            # the sample edges carry 1 ulp of |j|*sz; the rebuilt size inherits it and it is multiplied by |k-j|
-            amp = max((abs(j[0]) + 2) * (abs(k[0] - j[0]) + 2) * sp.szx, (abs(j[1]) + 2) * (abs(k[1] - j[1]) + 2) * sp.szy)
-            s = 0 if exact else Fraction(1, 2**46) * (big + abs(Fraction(sp.ox)) + abs(Fraction(sp.oy))) + Fraction(1, 2**48) * amp
+            # the sample tile's edges carry 1 ulp of their own magnitude |origin| + |j|*sz; the rebuilt tile size
+            # inherits that absolute error and it is multiplied by the index distance |k-j|
+            posx = abs(Fraction(sp.ox)) + (abs(j[0]) + 2) * sp.szx
+            posy = abs(Fraction(sp.oy)) + (abs(j[1]) + 2) * sp.szy
+            amp = max((abs(k[0] - j[0]) + 2) * posx, (abs(k[1] - j[1]) + 2) * posy)
+            s = 0 if exact else Fraction(1, 2**46) * big + Fraction(1, 2**49) * amp
             C.oracle(all(abs(u - v) <= s for u, v in zip(a, b)) and tuple(g2[k].shape) == tuple(gs[k].shape),
                      "from-sample-roundtrip", dict(case, k=list(k)),
                      f"grid rebuilt from tile {j}: tile {k} = {tuple(map(float, a))}, original {tuple(map(float, b))}",
@@ -359,6 +369,274 @@ def oracle_web(C, O, z: int, npix: int, ks: List[Tuple[int, int]]):
 
 
 
+
+def mk_poly(O, pts, holes=None):
+    ring = [tuple(map(float, p)) for p in pts]
+    inner = [[tuple(map(float, p)) for p in h] + [tuple(map(float, h[0]))] for h in (holes or [])]
+    return O.geom.polygon(ring + [ring[0]], CRS, *inner)
+
+
+# ----------------------------------------------------------------------------- histories (shared geobox_cache)
+def key_yx(k):
+    return (k[1], k[0])
+
+
+def hist_tok(steps) -> str:
+    toks = []
+    for kind, arg in steps:
+        if kind in "Bb":
+            toks += [kind] + [fs(v) for v in arg]
+        elif kind in "Pp":
+            toks += [kind, list_s(arg, lambda p: f"{fs(p[0])};{fs(p[1])}")]
+    return " ".join(toks)
+
+
+def run_history(O, gs, steps):
+    """Run the steps on the real code with ONE caller-supplied geobox_cache.  Kinds: B/P bbox / polygon query
+    with the cache, b/p the same without, Q polygon with holes / non-convex (cache), T plain tile_geobox call."""
+    cache = {}
+    outs = []
+    for kind, arg in steps:
+        if kind == "T":
+            gs.tile_geobox(arg)
+            continue
+        c = cache if kind in "BPQ" else None
+        if kind in "Bb":
+            res = list(gs.tiles(O.BoundingBox(*arg, CRS), c))
+        elif kind in "Pp":
+            res = list(gs.tiles_from_geopolygon(mk_poly(O, arg), c))
+        else:
+            res = list(gs.tiles_from_geopolygon(mk_poly(O, arg[0], arg[1]), c))
+        outs.append((kind, arg, [(tuple(map(int, k)), gb) for k, gb in res]))
+    return outs, cache
+
+
+def hist_s(outs, cache) -> str:
+    return (" ".join(list_s(sorted((k for k, _ in res), key=key_yx), idx_s) for kind, _, res in outs)
+            + " cache=" + list_s(sorted((tuple(map(int, k)) for k in cache), key=key_yx), idx_s))
+
+
+def steps_json(steps):
+    out = []
+    for kind, arg in steps:
+        if kind in "Bb":
+            out.append([kind, [fs(v) for v in arg]])
+        elif kind in "Pp":
+            out.append([kind, [[fs(x), fs(y)] for x, y in arg]])
+        elif kind == "Q":
+            out.append([kind, [[fs(x), fs(y)] for x, y in arg[0]], [[[fs(x), fs(y)] for x, y in h] for h in arg[1]]])
+        else:
+            out.append([kind, list(arg)])
+    return out
+
+
+def steps_from_json(js):
+    f = lambda v: float(Fraction(v))
+    steps = []
+    for st in js:
+        kind = st[0]
+        if kind in "Bb":
+            steps.append((kind, tuple(f(v) for v in st[1])))
+        elif kind in "Pp":
+            steps.append((kind, [(f(x), f(y)) for x, y in st[1]]))
+        elif kind == "Q":
+            steps.append((kind, ([(f(x), f(y)) for x, y in st[1]], [[(f(x), f(y)) for x, y in h] for h in st[2]])))
+        else:
+            steps.append((kind, tuple(st[1])))
+    return steps
+
+
+def oracle_history(C, gs, sp: Spec, steps, exact: bool, O):
+    """Every query of a history must return what the same query returns on its own (no cache) and satisfy the
+    polygon oracle; every yielded geobox is the geobox of its index; afterwards the cache holds exactly the
+    tiles of the bounding boxes of the cached queries, each with the right geobox."""
+    hj = steps_json(steps)
+    case = {"op": "history", "grid": sp.tok(), "steps": hj}
+    try:
+        outs, cache = run_history(O, gs, steps)
+    except Exception as e:  # pylint: disable=broad-except
+        C.oracle(False, "history-raises", case, repr(e))
+        return None
+    want_keys = set()
+    for n, (kind, arg, res) in enumerate(outs):
+        got = [k for k, _ in res]
+        bad = [k for k, gb in res if not (gb == gs.tile_geobox(k))]
+        C.oracle(not bad, "history-yields-wrong-geobox", dict(case, step=n), f"step {n} ({kind}) yielded a geobox that is not tile_geobox(index) for {bad[:5]}")
+        if kind in "Bb":
+            bb = O.BoundingBox(*arg, CRS)
+            alone = [tuple(map(int, k)) for k, _ in gs.tiles(bb)]
+            C.oracle(got == alone, "bbox-query-depends-on-cache", dict(case, step=n),
+                     f"step {n}: tiles(bbox, cache) = {got[:8]} but tiles(bbox) = {alone[:8]}", sig="history|bbox")
+            if kind == "B":
+                want_keys |= set(alone)
+        else:
+            pts, holes = (arg, None) if kind in "Pp" else arg
+            poly = mk_poly(O, pts, holes)
+            alone = [tuple(map(int, k)) for k, _ in gs.tiles_from_geopolygon(poly)]
+            C.oracle(got == alone, "polygon-query-depends-on-cache", dict(case, step=n),
+                     f"step {n}: tiles_from_geopolygon(poly, cache) = {sorted(got)[:10]} but without the cache {sorted(alone)[:10]}",
+                     sig="history|poly")
+            oracle_polygon(C, gs, sp, pts, exact, O, got=got, history=hj, holes=holes)
+            if kind in "PQ":
+                want_keys |= {tuple(map(int, k)) for k, _ in gs.tiles(poly.boundingbox)}
+    keys = {tuple(map(int, k)) for k in cache}
+    bad = [k for k, gb in cache.items() if not (gb == gs.tile_geobox(k))]
+    C.oracle(keys == want_keys and not bad, "geobox-cache-contents", case,
+             f"cache keys {sorted(keys)[:10]} expected {sorted(want_keys)[:10]}; wrong geoboxes for {bad[:5]}", sig="history|cache")
+    return outs, cache
+
+
+def gen_history(rng, sp: Spec, lattice: bool):
+    """3-6 steps inside a window of 4x4 tiles around a random tile; later queries cover tiles cached earlier"""
+    dx, dy = (-1 if sp.fx else 1), (-1 if sp.fy else 1)
+    i0, j0 = (rng.randint(-3, 3), rng.randint(-3, 3)) if lattice else (rng.randint(-40, 40), rng.randint(-40, 40))
+    L = Fraction(sp.ox) + dx * i0 * sp.szx
+    Bm = Fraction(sp.oy) + dy * j0 * sp.szy
+
+    def u():
+        return Fraction(rng.randint(-4, 14), 4) if lattice else Fraction(rng.uniform(-1, 3.5))
+
+    def XY(a, b):
+        return (float(L + a * sp.szx), float(Bm + b * sp.szy))
+
+    def box():
+        a, b = sorted((u(), u()))
+        c, d = sorted((u(), u()))
+        if a == b:
+            b += 1
+        if c == d:
+            d += 1
+        return XY(a, c) + XY(b, d)
+
+    def sliver():
+        a, b = Fraction(rng.randint(0, 3), 4), Fraction(rng.randint(9, 12), 4)
+        e = Fraction(rng.choice([1, 1, 2]), 4) if lattice else Fraction(rng.uniform(0.05, 0.4))
+        if rng.random() < 0.5:
+            pts = [XY(a, a + e), XY(a + e, a), XY(b, b - e), XY(b - e, b)]
+        else:
+            pts = [XY(a, b - e), XY(a + e, b), XY(b, a + e), XY(b - e, a)]
+        return convex_pts(rng, pts)
+
+    def hull():
+        return convex_pts(rng, [XY(u(), u()) for _ in range(rng.choice([3, 3, 4]))])
+
+    def lshape():
+        w = Fraction(1, 4) if lattice else Fraction(rng.uniform(0.1, 0.45))
+        a, b = Fraction(0), Fraction(3)
+        ring = [XY(a, a), XY(b, a), XY(b, a + w), XY(a + w, a + w), XY(a + w, b), XY(a, b)]
+        return (ring, [])
+
+    def holed():
+        a, b = Fraction(1, 4), Fraction(11, 4)
+        h0, h1 = Fraction(3, 4), Fraction(9, 4)
+        return ([XY(a, a), XY(b, a), XY(b, b), XY(a, b)], [[XY(h0, h0), XY(h0, h1), XY(h1, h1), XY(h1, h0)]])
+
+    steps = []
+    n = rng.randint(3, 6)
+    while len(steps) < n:
+        r = rng.random()
+        if r < 0.25:
+            steps.append((rng.choice("BBBb"), box()))
+        elif r < 0.5:
+            p = sliver()
+            if p:
+                steps.append((rng.choice("PPPp"), p))
+        elif r < 0.7:
+            p = hull()
+            if p:
+                steps.append((rng.choice("PPPp"), p))
+        elif r < 0.8:
+            steps.append(("Q", lshape()))
+        elif r < 0.88:
+            steps.append(("Q", holed()))
+        elif r < 0.94:
+            steps.append(("T", (i0 + rng.randint(0, 2), j0 + rng.randint(0, 2))))
+        elif steps:
+            steps.append(rng.choice(steps))  # a repeated identical query
+    if rng.random() < 0.5:  # a whole-window fill first: the typical "one cache, many footprints" use
+        steps.insert(0, ("B", XY(Fraction(-1, 4), Fraction(-1, 4)) + XY(Fraction(13, 4), Fraction(13, 4))))
+    return steps
+
+
+def emit_history(R: Run, O, gs, sp: Spec, steps, modes: str, exact: bool):
+    res = oracle_history(R, gs, sp, steps, exact, O)
+    if res is None or any(k == "Q" for k, _ in steps):
+        return  # polygons with holes / non-convex ones: oracle only (the driver's `disjoint` is for convex rings)
+    outs, cache = res
+    real = hist_s(outs, cache)
+    for m in modes:
+        corr(R, f"c14 hist {m} {sp.tok()} {hist_tok(steps)}", (lambda o=real: o), sig=f"hist|{m}|{len(steps)}-steps")
+
+
+# ----------------------------------------------------------------------------- rebuilt binnings: two-sided
+EPS = Fraction(1, 2**50)  # 4 ulps relative: bound of the rounding of  x1-x0,  sz*idx*dir,  x0 - …
+
+
+def oracle_sample_bin(C, O, idx: int, x0: float, x1: float, d: int, far: int):
+    case = {"op": "fsb", "idx": idx, "x0": fs(x0), "x1": fs(x1), "d": d, "far": far}
+    try:
+        b = O.Bin1D.from_sample_bin(idx, (x0, x1), d)
+        lo, hi = b[idx]
+        flo, _ = b[far]
+    except Exception as e:  # pylint: disable=broad-except
+        C.oracle(False, "from-sample-bin-raises", case, repr(e))
+        return
+    X0, X1 = Fraction(x0), Fraction(x1)
+    sz = X1 - X0
+    org = X0 - sz * idx * d
+    mag = abs(X0) + sz * (abs(idx) + abs(far) + 1)
+    ok = (abs(Fraction(b.sz) - sz) <= EPS * sz and abs(Fraction(b.origin) - org) <= EPS * mag and b.direction == d
+          and abs(Fraction(lo) - X0) <= 4 * EPS * mag and abs(Fraction(hi) - X1) <= 4 * EPS * mag
+          and abs(Fraction(flo) - (org + far * d * sz)) <= 4 * EPS * mag)
+    C.oracle(ok, "from-sample-bin-not-the-sample", case,
+             f"from_sample_bin({idx}, ({x0!r}, {x1!r}), {d}): sz={b.sz!r} (x1-x0={float(sz)!r}), origin={b.origin!r} "
+             f"(expected {float(org)!r}), bin[{idx}]={(lo, hi)}, bin[{far}] starts {flo!r} (expected {float(org + far * d * sz)!r})",
+             sig="fsb|two-sided")
+
+
+def oracle_sample_tile(C, O, q, ny, nx, ix, iy, fx, fy, k):
+    case = {"op": "fst", "box": [fs(v) for v in q], "ny": ny, "nx": nx, "ix": ix, "iy": iy, "fx": fx, "fy": fy, "k": list(k)}
+    try:
+        g = O.GridSpec.from_sample_tile(O.geom.box(*q, CRS), shape=(ny, nx), idx=(ix, iy), flipx=fx, flipy=fy)
+        bb = fbb(g[k].boundingbox)
+        sb = fbb(g[ix, iy].boundingbox)
+    except Exception as e:  # pylint: disable=broad-except
+        C.oracle(False, "from-sample-raises", case, repr(e))
+        return
+    L, B, Rr, T = map(Fraction, q)
+    dx, dy = (-1 if fx else 1), (-1 if fy else 1)
+    szx, szy = Rr - L, T - B
+    ox, oy = L - szx * ix * dx, B - szy * iy * dy
+    mx = abs(L) + szx * (abs(ix) + abs(k[0]) + 2)
+    my = abs(B) + szy * (abs(iy) + abs(k[1]) + 2)
+    ok = (abs(Fraction(g.tile_size.x) - szx) <= EPS * szx and abs(Fraction(g.tile_size.y) - szy) <= EPS * szy
+          and abs(Fraction(g.origin.x) - ox) <= EPS * mx and abs(Fraction(g.origin.y) - oy) <= EPS * my
+          and g.resolution.x > 0 and g.resolution.y < 0 and tuple(g.tile_shape) == (ny, nx)
+          and abs(Fraction(g.resolution.x) * nx - szx) <= EPS * szx and abs(-Fraction(g.resolution.y) * ny - szy) <= EPS * szy)
+    C.oracle(ok, "from-sample-tile-size-or-origin", case,
+             f"from_sample_tile: tile_size {g.tile_size} origin {g.origin} resolution {g.resolution}; sample box is "
+             f"{float(szx)!r} x {float(szy)!r}, expected origin {float(ox)!r},{float(oy)!r}", sig="fst|two-sided")
+    want = (ox + dx * k[0] * szx, oy + dy * k[1] * szy, ox + dx * k[0] * szx + szx, oy + dy * k[1] * szy + szy)
+    tol = (4 * EPS * mx, 4 * EPS * my, 4 * EPS * mx, 4 * EPS * my)
+    ok = all(abs(a - w) <= t for a, w, t in zip(bb, want, tol)) and all(abs(a - w) <= t for a, w, t in zip(sb, (L, B, Rr, T), tol))
+    C.oracle(ok, "from-sample-tile-footprints", case,
+             f"grid from sample tile {(ix, iy)} = {tuple(map(float, (L, B, Rr, T)))}: tile {tuple(k)} = {tuple(map(float, bb))} "
+             f"expected {tuple(map(float, want))}; sample tile itself = {tuple(map(float, sb))}", sig="fst|far-tile")
+
+
+def near_value(rng) -> float:
+    """a size at k ± δ or 1/(k ± δ), δ ∈ {1e-6, 1e-7, 1e-9, 1e-10, 1e-13, 1 ulp, just in/outside 1e-6}:
+    the windows in which helpers such as snap_scale / maybe_int / is_almost_int change a value"""
+    d = rng.choice([1e-6, 1e-7, 1e-9, 1e-10, 1e-13, "ulp", 0.99e-6, 1.01e-6, 4e-7])
+    sg = rng.choice([1, -1])
+    if rng.random() < 0.55:
+        k = float(rng.choice([1, 2, 3, 10, 100, 1000, 96000, 100000]))
+        return math.nextafter(k, sg * math.inf) if d == "ulp" else k + sg * d
+    k = float(rng.choice([2, 3, 4, 8, 10, 100, 120, 3600]))
+    if d == "ulp":
+        return math.nextafter(1 / k, sg * math.inf)
+    return 1 / (k + sg * d) if rng.random() < 0.7 else 1 / k + sg * d * 1e-3
+
 # ----------------------------------------------------------------------------- F-mode buffer
 DISCRETE_OPS = ("pt", "idxb", "tiles", "poly", "bin")
 _ATOM = re.compile(r"[\[\],; ]+")
@@ -376,7 +654,7 @@ def corr(R: Run, line: str, fn, sig: Optional[str] = None, safe: bool = True) ->
 
 
 def drift_equal(line: str, real: str, model: str, safe: bool) -> bool:
-    """True when `real` and `model` differ by float rounding only: every rational within 1e-12 relative to the
+    """True when `real` and `model` differ by float rounding only: every rational within 2^-46 (1.4e-14) relative to the
     magnitude of the line's values, and discrete outputs equal unless the input was generated within rounding
     distance of a decision boundary (`safe` False)."""
     if real == model:
@@ -394,7 +672,7 @@ def drift_equal(line: str, real: str, model: str, safe: bool) -> bool:
         fa, fb = [Fraction(x) for x in a], [Fraction(x) for x in b]
     except (ValueError, ZeroDivisionError):
         return False
-    tol = Fraction(1, 10**12) * max([Fraction(1)] + [abs(v) for v in fa + fb])
+    tol = Fraction(1, 2**46) * max([Fraction(1)] + [abs(v) for v in fa + fb])
     return all(abs(u - v) <= tol for u, v in zip(fa, fb))
 
 
@@ -424,7 +702,7 @@ def flush_fbuf(R: Run):
     if drift:
         R.count("F-mode-rounding-drift", len(drift))
         R.notes.append(f"{len(drift)} of {len(buf)} binary64-mode lines differ from the real code by float rounding only "
-                       f"(<=1e-12 relative, no decision changed away from a boundary), e.g. {drift[0]}")
+                       f"(<=1.4e-14 relative, no decision changed away from a boundary), e.g. {drift[0]}")
 
 # ----------------------------------------------------------------------------- case emitters
 def emit_grid(R: Run, O, sp: Spec, modes: str):
@@ -570,6 +848,10 @@ def run(R: Run):
         y1 = y0 + rng.choice([rng.uniform(0, 1e5), 100000.0, 96000.0, 1 / 3, -1.0])
         corr(R, f"c14 fsb F {idx} {fs(y0)} {fs(y1)} {d}",
                lambda: (lambda b: f"{fs(b.sz)} {fs(b.origin)} {b.direction}")(O.Bin1D.from_sample_bin(idx, (y0, y1), d)))
+        if y0 < y1:
+            oracle_sample_bin(R, O, idx, y0, y1, d, idx + rng.randint(-10**4, 10**4))
+        if x0 < x1:
+            oracle_sample_bin(R, O, idx, float(x0), float(x1), d, idx + rng.randint(-50, 50))
 
     # --- exact stream, exhaustive on a small lattice ----------------------------------------------
     lattice = []
@@ -728,6 +1010,54 @@ def run(R: Run):
             emit_poly(R, O, gs, sp, pts, "EF", "|lattice")
             oracle_polygon(R, gs, sp, pts, True, O)
 
+    # --- histories: ONE caller-supplied geobox_cache shared by a sequence of different bbox / polygon queries
+    #     (state carried across calls); every step is compared with the stateless query and the shapely oracle
+    for sp in rng.sample(lattice, R.pick(32, 64)):
+        gs = sp.make(O)
+        for _ in range(R.pick(3, 8)):
+            emit_history(R, O, gs, sp, gen_history(rng, sp, True), "EF", True)
+    for sp in rng.sample(exact_specs, min(len(exact_specs), R.pick(20, 200))):
+        emit_history(R, O, sp.make(O), sp, gen_history(rng, sp, False), "F", False)
+
+    # --- sizes in the windows of the library's snapping helpers (k ± δ, 1/(k ± δ)): the tile size itself,
+    #     from_sample_bin and from_sample_tile with indices far from the sample, two-sided exact oracles
+    for _ in range(R.pick(250, 2500)):
+        vx, vy = near_value(rng), near_value(rng)
+        n_y, n_x = rng.choice([1, 4, 100, 120, 400, 4000]), rng.choice([1, 4, 100, 120, 400, 4000])
+        fx, fy = rng.random() < 0.5, rng.random() < 0.5
+        x0 = rng.choice([0.0, 0.0, 10.0, -180.0, 399960.0, rng.uniform(-1e3, 1e3)])
+        y0 = rng.choice([0.0, 0.0, -90.0, 20.0, rng.uniform(-1e3, 1e3)])
+        far = lambda: rng.choice([1, -1]) * rng.choice([1, 7, 60, 1000, 10**4])
+        # (i) a grid whose tile size shape*|res| is such a value
+        sp = Spec(n_y, n_x, rng.choice([1, -1]) * vx / n_x, rng.choice([1, -1]) * vy / n_y, x0, y0, fx, fy)
+        gs = sp.make(O)
+        emit_grid(R, O, sp, "F")
+        k = (far(), far())
+        emit_tile(R, O, gs, sp, k, "F")
+        oracle_tile(R, gs, sp, k, False)
+        j = rng.choice([(0, 0), (rng.randint(-3, 3), rng.randint(-3, 3)), (far(), far())])
+        emit_roundtrip(R, O, gs, sp, j, k, "F")
+        oracle_roundtrip(R, gs, sp, j, [k, j, (0, 0)], False, O)
+        bbk = gs[k].boundingbox
+        px, py = bbk.left + rng.random() * float(sp.szx), bbk.bottom + rng.random() * float(sp.szy)
+        emit_pt(R, O, gs, sp, px, py, "F", "|near-int-size")
+        oracle_point(R, gs, sp, px, py, False)
+        # (ii) from_sample_bin with that size, sample index far from the probed bin
+        idx, d = rng.choice([0, 1, far()]), rng.choice([1, -1])
+        x1 = x0 + vx
+        if x0 < x1:
+            corr(R, f"c14 fsb F {idx} {fs(x0)} {fs(x1)} {d}",
+                 lambda: (lambda b: f"{fs(b.sz)} {fs(b.origin)} {b.direction}")(O.Bin1D.from_sample_bin(idx, (x0, x1), d)),
+                 sig="fsb|F|near-int-size")
+            oracle_sample_bin(R, O, idx, x0, x1, d, idx + far())
+        # (iii) from_sample_tile with such a box
+        q = (x0, y0, x0 + vx, y0 + vy)
+        if q[0] < q[2] and q[1] < q[3]:
+            ix, iy = rng.choice([0, far()]), rng.choice([0, far()])
+            k2 = (ix + far(), iy + far())
+            emit_fst(R, O, q, n_y, n_x, ix, iy, fx, fy, px, py, k2, "F")
+            oracle_sample_tile(R, O, q, n_y, n_x, ix, iy, fx, fy, k2)
+
     # --- float stream: realistic doubles, F mode bit-exact + property oracles -----------------------
     presets = [
         ((4000, 4000), (25.0, -25.0), (0.0, 0.0)),              # Australian Albers 100 km tiles
@@ -792,6 +1122,10 @@ def run(R: Run):
         if pts is not None:
             emit_poly(R, O, gs, sp, pts, "F", "|float")
             oracle_polygon(R, gs, sp, pts, False, O)
+        if rng.random() < 0.5:
+            emit_history(R, O, gs, sp, gen_history(rng, sp, False), "F", False)
+        jb = gs[j].boundingbox
+        oracle_sample_tile(R, O, tuple(jb), sp.ny, sp.nx, j[0], j[1], sp.fx, sp.fy, k)
 
     # polygon given in another CRS (reprojected by the library first): shapely on the reprojected polygon
     for _ in range(R.pick(5, 40)):
@@ -960,6 +1294,26 @@ def search(R: Run, mismatches):
                     oracle_point(C, gs, sp, x, y, False)
                 oracle_query(C, gs, sp, tuple(bb), False, O)
                 oracle_roundtrip(C, gs, sp, (2, -1), [(0, 0), (5, 7)], False, O)
+            elif op == "hist":
+                sp = Spec.from_tok(t[3:11])
+                gs = sp.make(O)
+                steps, i = [], 11
+                f = lambda v: float(Fraction(v))
+                while i < len(t):
+                    if t[i] in "Bb":
+                        steps.append((t[i], tuple(f(v) for v in t[i + 1:i + 5])))
+                        i += 5
+                    else:
+                        steps.append((t[i], [tuple(f(v) for v in q.split(";")) for q in t[i + 1][1:-1].split(",")]))
+                        i += 2
+                oracle_history(C, gs, sp, steps, False, O)
+            elif op == "fsb":
+                f = lambda v: float(Fraction(v))
+                oracle_sample_bin(C, O, int(t[3]), f(t[4]), f(t[5]), int(t[6]), int(t[3]) + 1000)
+            elif op == "fst":
+                f = lambda v: float(Fraction(v))
+                oracle_sample_tile(C, O, tuple(f(v) for v in t[3:7]), int(t[7]), int(t[8]), int(t[9]), int(t[10]),
+                                   t[11] == "T", t[12] == "T", (int(t[15]), int(t[16])))
             elif op == "web":
                 z = int(t[4])
                 if 0 <= z <= 30:
@@ -1004,7 +1358,18 @@ def replay(R: Run, rec) -> int:
     C = Collector()
     op = case.get("op")
     f = lambda s: float(Fraction(s))
-    if op == "web":
+    if op == "history":
+        sp = Spec.from_tok(case["grid"].split(" "))
+        oracle_history(C, sp.make(O), sp, steps_from_json(case["steps"]), False, O)
+    elif op == "poly" and "history" in case:
+        sp = Spec.from_tok(case["grid"].split(" "))
+        oracle_history(C, sp.make(O), sp, steps_from_json(case["history"]), False, O)
+    elif op == "fsb":
+        oracle_sample_bin(C, O, case["idx"], f(case["x0"]), f(case["x1"]), case["d"], case["far"])
+    elif op == "fst":
+        oracle_sample_tile(C, O, tuple(f(v) for v in case["box"]), case["ny"], case["nx"], case["ix"], case["iy"],
+                           case["fx"], case["fy"], tuple(case["k"]))
+    elif op == "web":
         z = case["z"]
         n = 2**z
         ks = [(case["i"], case["j"])] if "i" in case else [(0, 0), (n - 1, n - 1)]
